@@ -251,13 +251,23 @@ def r_img_addcks(model, rep):
     present = ("cmp", ("in",), (t, cks))
     st = [ev for ev in cx.events if ev.kind == "store" and T.root_of(ev.target) == S]
     ok = len(st) == 1 and st[0].target == ("sub", cks, t) and st[0].value == v \
-        and list(st[0].guards) in ([(present, False)], [(("cmp", ("not in",), (t, cks)), True)])
+        and facts.canon_guards(st[0].guards) == frozenset([facts.canon_guard((present, False))])
     rep.ob("R-IMG-ADDCKS", "Image.add_checksum:no-overwrite", ok, site=cx.site(f.node),
            msg="" if ok else "a checksum may only be stored when no value of that type is recorded yet")
     rs = [ev for ev in cx.events if ev.kind == "raise" and ev.value[0] == "call" and ev.value[1] == ("global", "ValueError")]
     cur = ("sub", cks, t)
-    want = ("boolop", "and", (v, ("cmp", ("!=",), (v, cur))))
-    ok = len(rs) == 1 and list(rs[0].guards) == [(present, True), (want, True)]
+    conflict = frozenset([facts.canon_guard((present, True)), facts.canon_guard((v, True)), facts.canon_guard((("cmp", ("!=",), (v, cur)), True))])
+
+    def flat(gs):
+        out = set()
+        for g in gs:
+            if g[1] and g[0][0] == "boolop" and g[0][1] == "and":
+                for x in g[0][2]:
+                    out.add(facts.canon_guard((x, True)))
+            else:
+                out.add(facts.canon_guard(g))
+        return frozenset(out)
+    ok = len(rs) == 1 and flat([g for g in rs[0].guards if g[0][0] != "exc"]) == conflict
     rep.ob("R-IMG-ADDCKS", "Image.add_checksum:conflict-raises", ok, site=cx.site(f.node),
            msg="" if ok else "a different non-empty value for a recorded checksum type must raise ValueError")
     rets = [ev for ev in cx.events if ev.kind == "return"]
